@@ -174,6 +174,7 @@ class _Peer(object):
         self.send_cs = None     # encrypts what the client will read
         self.client_payload = None
         self.wire_error = None
+        self.last_plain = []
 
     # -- byte plumbing -------------------------------------------------------------------------
     def _pull(self):
@@ -319,6 +320,7 @@ class _Peer(object):
         """Whole new frames the stack wrote, decrypted strictly in order with the real cipher state.
         Returns (count, tags). Stops at the first decrypt failure (recorded in wire_error)."""
         n, tags = 0, []
+        self.last_plain = []
         if self.recv_cs is None or self.wire_error is not None:
             return n, tags
         while True:
@@ -331,6 +333,7 @@ class _Peer(object):
                 self.wire_error = e.__class__.__name__
                 break
             n += 1
+            self.last_plain.append(bytes(plain))
             try:
                 node = self._dec.getProtocolTreeNode(bytearray(plain))
                 tags.append(node.tag if node is not None else "?")
@@ -647,11 +650,26 @@ class Rig(object):
             kind, self._next_override["down"] = self._next_override["down"], None
         payload = self._send_payload(kind)
         top0 = len(self.top.seen)
+        # what the peer must read for this send: the stanza's own encoding, nothing else (kinds that pass the layers
+        # unchanged; a stand-alone encoder instance)
+        want = None
+        if kind in ("iq_ping", "presence", "raw_node", "bare_node"):
+            try:
+                want = self.peer.encode(payload.toProtocolTreeNode() if hasattr(payload, "toProtocolTreeNode")
+                                        else payload)
+            except Exception:
+                want = None
         try:
             self.top.send(payload)
         except Exception as e:
             return self._result("raise", e.__class__.__name__, top0)
-        return self._result("ok", None, top0)
+        r = self._result("ok", None, top0)
+        if want is not None and r["wire_frames"] == 1 and not r["wire_error"]:
+            got = self.peer.last_plain[0]
+            r["wire_match"] = got == want
+            if got != want:
+                r["wire_got"], r["wire_want"] = got.hex()[:400], want.hex()[:400]
+        return r
 
     def _recv_bytes(self, kind):
         from yowsup.structs import ProtocolTreeNode
